@@ -182,6 +182,40 @@ pub fn labels_since(from: u64) -> Vec<String> {
     }
 }
 
+/// a pipeline step reported by `verif_hook::step` (hook H14): a marker in the event log (phase End, file `STEP`: invisible to
+/// everything that looks at Begin events)
+pub fn record_step(name: &'static str) {
+    if let Some(s) = STATE.lock().unwrap().as_mut() {
+        let idx = s.begins;
+        s.log.push(Ev { idx, file: "STEP".into(), kind: Kind::Fsync, phase: Phase::End, offset: 0, len: 0, site: name, thread: thread_id() });
+    }
+}
+
+/// number of entries of the event log (a position for `seq_from`)
+pub fn log_len() -> usize {
+    STATE.lock().unwrap().as_ref().map(|s| s.log.len()).unwrap_or(0)
+}
+
+/// the steps (`s:<name>`) and I/O Begin events (`io:<file>:<Kind>:<site>`) logged from position `pos` on, in order
+pub fn seq_from(pos: usize) -> Vec<String> {
+    let g = STATE.lock().unwrap();
+    match g.as_ref() {
+        Some(s) => s.log[pos.min(s.log.len())..]
+            .iter()
+            .filter_map(|e| {
+                if e.file == "STEP" {
+                    Some(format!("s:{}", e.site))
+                } else if e.phase == Phase::Begin && !e.file.starts_with("ABORT") {
+                    Some(format!("io:{}:{:?}:{}", e.file.split(':').next().unwrap_or(""), e.kind, e.site))
+                } else {
+                    None
+                }
+            })
+            .collect(),
+        None => vec![],
+    }
+}
+
 pub fn begins() -> u64 {
     STATE.lock().unwrap().as_ref().map(|s| s.begins).unwrap_or(0)
 }
